@@ -39,6 +39,7 @@ inductive SOp (α : Type) where
   | appendInput (strong : Bool) (sid : Nat) (vs : List α) | assignInput (sid : Nat) (vs : List α)
   /- element access: at (i) (out_of_range beyond size (), by the GENERATED test) and operator[] (i) -/
   | atIdx (i : Nat) | index (i : Nat)
+  | resizeSelf (n i : Nat)      -- resize (n, v[i])
   deriving DecidableEq
 
 /-- API preconditions, in terms of the current size -/
@@ -53,6 +54,7 @@ def SOp.valid (size : Nat) : SOp α → Prop
   | .insertNSelf p _ i => p ≤ size ∧ i < size
   | .insertRange p vs => p ≤ size ∧ vs ≠ []
   | .index i => i < size
+  | .resizeSelf _ i => i < size
   | _ => True
 
 /-- the model program of the call on container `c` (the aliasing source is resolved against the current buffer) -/
@@ -82,6 +84,7 @@ def SOp.run (cfg : Cfg) (c : Nat) (w : World α) : SOp α → M α Unit
   | .assignInput sid vs => assignWithRangeInput cfg c sid vs
   | .atIdx i => getV c >>= fun v => if guard_at0_0 { size := v.size, pos := i } then throwE .range else readSlot v.data i >>= fun _ => pure ()
   | .index i => getV c >>= fun v => readSlot v.data i >>= fun _ => pure ()
+  | .resizeSelf n i => resizeWith cfg c n (.copyOf (w.hdr c).data i)
 
 /-- what std::vector does (Spec/L0.lean) -/
 def SOp.spec : SOp α → List (Val α) → List (Val α)
@@ -110,6 +113,7 @@ def SOp.spec : SOp α → List (Val α) → List (Val α)
   | .assignInput _ vs, _ => L0.assignRange (vs.map Val.val)
   | .atIdx _, xs => xs
   | .index _, xs => xs
+  | .resizeSelf n i, xs => L0.resize xs n (xs.getD i .husk)
 
 /-- operations with the strong exception guarantee (erase and erase(range) only have the basic one) -/
 def SOp.strong : SOp α → Bool
@@ -462,6 +466,26 @@ theorem step_basic (cfg : Cfg) (c : Nat) (op : SOp α) (w : World α) (xs : List
     have hslot := hx.2 i hi
     have hread : readSlot (w.hdr c).data i w = .ok xs[i] w := by unfold readSlot; rw [hslot]
     rw [bind_run, hread]; exact ⟨Basic.refl hp.vec hp.led, hx⟩
+  | resizeSelf n i =>
+    have hi : i < xs.length := by rw [hlen]; exact hv
+    have hslot := hx.2 i hi
+    have ha : ArgOK cfg w c (.copyOf (w.hdr c).data i) :=
+      ⟨rfl, fun b j hl => by simp [Src.loc] at hl; obtain ⟨h1, h2⟩ := hl; subst h1; subst h2; exact ⟨_, hslot⟩,
+       fun b j hl => by simp [Src.loc] at hl; obtain ⟨h1, h2⟩ := hl; subst h1; subst h2; exact ⟨rfl, by rw [← hx.1]; exact hi⟩⟩
+    show match resizeWith cfg c n (.copyOf (w.hdr c).data i) w with | .ok _ w' => _ | .thrown _ w' => _
+    have hs := resizeWith_sat cfg c n (.copyOf (w.hdr c).data i) w hp.vec hp.led hp.nmax ha hpol
+    cases hr : resizeWith cfg c n (.copyOf (w.hdr c).data i) w with
+    | ok r w' =>
+      rw [hr] at hs
+      refine ⟨hs.basic, ?_⟩
+      have := C11.resize_alias cfg c n i w w' xs hp hpol hx hi hr
+      show Holds w' c (L0.resize xs n (xs.getD i .husk))
+      rw [List.getD_eq_getElem?_getD, List.getElem?_eq_getElem hi]
+      exact this
+    | thrown e w' =>
+      rw [hr] at hs
+      have hs : Strong w w' := hs
+      exact ⟨(hs.basic hp.led hp.vec), fun _ => hs.holds hp.led hp.vec hx⟩
 
 /-! ### histories -/
 
